@@ -123,6 +123,10 @@ class Tr:
                 if t == 'opt_int':
                     x = self.tmp()
                     return f'match {cn} with None => None | Some {x} => {k(x, "int")} end'
+                if t == 'find_int':
+                    # used as an index: only meaningful when something was found (Python would go on with -1: fail closed)
+                    x = self.tmp()
+                    return f'match {cn} with None => None | Some {x} => {k(x, "int")} end'
                 if t == 'opt_term':
                     x = self.tmp()
                     return f'match {cn} with None => None | Some {x} => {k(x, "term")} end'
@@ -172,6 +176,16 @@ class Tr:
             if len(e.ops) != 1:
                 fail(e, 'chained comparison')
             op, rhs = e.ops[0], e.comparators[0]
+            # x = s.find(c) ... `x < 0` / `x >= 0` / `x == -1` / `x != -1`: found or not (None stands for -1)
+            if isinstance(e.left, ast.Name) and e.left.id in env and env[e.left.id][1] == 'find_int':
+                neg1 = isinstance(rhs, ast.UnaryOp) and isinstance(rhs.op, ast.USub) and isinstance(rhs.operand, ast.Constant) and rhs.operand.value == 1
+                zero = isinstance(rhs, ast.Constant) and rhs.value == 0
+                x = env[e.left.id][0]
+                if (zero and isinstance(op, ast.Lt)) or (neg1 and isinstance(op, ast.Eq)):
+                    return k(f'(is_none {x})', 'bool')
+                if (zero and isinstance(op, ast.GtE)) or (neg1 and isinstance(op, ast.NotEq)):
+                    return k(f'(negb (is_none {x}))', 'bool')
+                fail(e, 'comparison of the result of str.find other than with 0 / -1')
 
             def kl(a, ta):
                 def kr(b, tb):
@@ -314,6 +328,9 @@ class Tr:
                 if f.attr == 'join' and len(e.args) == 1 and isinstance(f.value, ast.Constant) and f.value.value == '':
                     return self.cx(e.args[0], env, lambda a, ta: k(a, 'str') if ta == 'list_char'
                                    else fail(e, f"''.join of a {ta}"))
+                if f.attr == 'find' and len(e.args) == 1 and not e.keywords:
+                    return self.cx(f.value, env, lambda a, ta: self.cx(e.args[0], env, lambda c, tc:
+                                   k(f'(py_find {c} {a})', 'find_int') if ta == 'str' and tc == 'char1' else fail(e, f'find of {tc} in {ta}')))
                 if f.attr == 'isspace' and not e.args:
                     return self.cx(f.value, env, lambda a, ta: k(f'(is_space {a})', 'bool') if ta == 'char'
                                    else fail(e, 'isspace on a non-character'))
